@@ -80,7 +80,10 @@ fn merge_sequences(alphabet: &[char], k: usize) -> Vec<Vec<String>> {
 }
 
 fn bpe_def_from(tokens: &[String], chars: bool, eow: Option<&str>, fallback: Vec<Fallback>, unknown: bool) -> Definition {
-    let vocab: Vocab = tokens.iter().enumerate().map(|(i, t)| Token { id: i as u32 + 10, bytes: t.as_bytes().to_vec() }).collect();
+    // ids deliberately do NOT follow the rank order (rank = position): reversed, so that any confusion
+    // of token ids with merge ranks shows
+    let n = tokens.len() as u32;
+    let vocab: Vocab = tokens.iter().enumerate().map(|(i, t)| Token { id: 10 + (n - 1 - i as u32) * 3, bytes: t.as_bytes().to_vec() }).collect();
     let mut config = Configuration::default();
     config.fallback = fallback;
     if let Some(e) = eow {
@@ -197,7 +200,7 @@ fn random_defs(prop: &str, rng: &mut Rng, thorough: bool, out: &mut Sink, slot: 
             alphabet: alphabet.clone(),
             holes,
             all_bytes: prop == "C06" && rng.chance(1, 4),
-            merges: rng.range(0, 30),
+            merges: if d % 3 == 0 { rng.range(0, 4) } else { rng.range(0, 30) },
             eow: eow.clone(),
             prefix: prefix.clone(),
             fallback,
@@ -253,9 +256,14 @@ fn random_defs(prop: &str, rng: &mut Rng, thorough: bool, out: &mut Sink, slot: 
 fn exhaustive_words(prop: &str, rng: &mut Rng, thorough: bool, out: &mut Sink, slot: &mut usize) {
     // C04 / C05: exhaustive pieces up to length 8 (thorough) / 5 (quick) over small alphabets, several vocabularies
     let lmax = if thorough { 8 } else { 5 };
-    let nvoc = if thorough { 40 } else { 8 };
+    let nvoc = if thorough { 80 } else { 16 };
     for v in 0..nvoc {
-        let alphabet: Vec<char> = if v % 2 == 0 { vec!['a', 'b'] } else { vec!['a', 'é', '語'] };
+        let alphabet: Vec<char> = match v % 4 {
+            0 => vec!['a', 'b'],
+            1 => vec!['a', 'é', '語'],
+            2 => vec!['é', '語'],
+            _ => vec!['😀', 'ß'],
+        };
         let lm = if alphabet.len() == 3 { lmax.min(6) } else { lmax };
         let kind = if prop == "C04" { Kind::Unigram } else { Kind::WordPiece };
         let spec = DefSpec {
@@ -263,7 +271,7 @@ fn exhaustive_words(prop: &str, rng: &mut Rng, thorough: bool, out: &mut Sink, s
             alphabet: alphabet.clone(),
             holes: if v % 4 == 3 { 2 } else { 0 },
             all_bytes: false,
-            merges: rng.range(2, 14),
+            merges: if v % 4 >= 2 { rng.range(1, 4) } else { rng.range(2, 14) },
             eow: None,
             prefix: if kind == Kind::WordPiece { Some(rng.pick(&["##", "@@", "é"]).to_string()) } else { None },
             fallback: vec![Fallback::Unknown],
@@ -335,6 +343,71 @@ fn shipped(prop: &str, rng: &mut Rng, thorough: bool, out: &mut Sink, slot: &mut
     }
 }
 
+/// C06: end-of-word suffix x byte fallback, with byte-level tokens (some carrying the suffix) present
+/// or missing, and pieces with several unencodable characters incl. the last one.
+fn c06_suffix_bytes(rng: &mut Rng, thorough: bool, out: &mut Sink, slot: &mut usize) {
+    let ndefs = if thorough { 600 } else { 60 };
+    let tails: [&[Fallback]; 5] = [&[], &[Fallback::Skip], &[Fallback::Unknown], &[Fallback::Unknown, Fallback::Skip], &[Fallback::Bytes, Fallback::Unknown]];
+    for d in 0..ndefs {
+        let chars = d % 2 == 0;
+        let eow = *rng.pick(&["</w>", "_", "é"]);
+        let mut toks: Vec<Vec<u8>> = Vec::new();
+        let mut push = |t: Vec<u8>| {
+            if !toks.contains(&t) {
+                toks.push(t);
+            }
+        };
+        for c in ['a', 'b'] {
+            push(c.to_string().into_bytes());
+            if rng.chance(2, 3) {
+                push(format!("{}{}", c, eow).into_bytes());
+            }
+        }
+        // byte-level tokens for the holes 'é' (c3 a9), 'x', '語' (e8 aa 9e): some present, some with suffix
+        for b in [0xc3u8, 0xa9, b'x', 0xe8, 0xaa, 0x9e] {
+            if rng.chance(2, 3) {
+                push(vec![b]);
+            }
+            if rng.chance(1, 2) {
+                let mut t = vec![b];
+                t.extend_from_slice(eow.as_bytes());
+                push(t);
+            }
+        }
+        if rng.chance(1, 2) {
+            push("ab".as_bytes().to_vec());
+        }
+        let mut fallback = vec![Fallback::Bytes];
+        fallback.extend_from_slice(tails[d % tails.len()]);
+        let toks_s: Vec<String> = Vec::new();
+        let _ = toks_s;
+        let vocab: Vocab = toks.iter().enumerate().map(|(i, t)| Token { id: 10 + i as u32, bytes: t.clone() }).collect();
+        let mut config = Configuration::default();
+        config.fallback = fallback;
+        config.templates.push(Template { content: eow.to_string(), position: InsertionPosition::WordEnd });
+        let mut specials = Vec::new();
+        if rng.chance(2, 3) {
+            specials.push(SpecialToken { id: 5_000_000, bytes: b"\x01<unk>\x01".to_vec(), kind: SpecialTokenKind::Unknown, ident: None, score: 0.0, extract: false });
+        }
+        let def = Definition { meta: Metadata::default(), model: Model::BytePair { vocab, chars }, specials, config };
+        let mut lines = Vec::new();
+        let tk = load(*slot, "c06-suffix-bytes", def, &mut lines);
+        *slot += 1;
+        let mut pieces: Vec<String> = Vec::new();
+        for s in all_strings(&['a', 'é', 'x'], 4) {
+            if !s.is_empty() {
+                pieces.push(s);
+            }
+        }
+        for _ in 0..10 {
+            pieces.push(random_piece(rng, &['a', 'b', 'é', 'x', '語'], true));
+        }
+        out.count("c06_suffix_bytes_defs");
+        piece_lines(&tk, "BPE", &pieces, &mut lines, out);
+        out.group(lines);
+    }
+}
+
 pub fn gen(prop: &str, rng: &mut Rng, thorough: bool, out: &mut Sink) {
     let mut slot = 0usize;
     match prop {
@@ -351,6 +424,7 @@ pub fn gen(prop: &str, rng: &mut Rng, thorough: bool, out: &mut Sink) {
         _ => {
             // C06: every fallback list up to length 3 x kinds x holes x suffix
             random_defs(prop, rng, thorough, out, &mut slot);
+            c06_suffix_bytes(rng, thorough, out, &mut slot);
         }
     }
 }
